@@ -29,10 +29,11 @@ GivPatterns == {AllGiven,
                 <<TRUE, TRUE, FALSE, TRUE, FALSE, FALSE>>,       \* 2d full tensor
                 <<TRUE, FALSE, FALSE, TRUE, TRUE, TRUE>>}        \* cross terms with default diagonal
 \* parameter tuples <<kxx, kyy, kzz, kxy, kxz, kyz>>; arguments that are not passed are listed as 0
-Cells2(giv) == {p \in [1..6 -> Diag \cup Off] :
-                  /\ \A i \in 1..3 : p[i] \in (IF giv[i] THEN Diag ELSE {0})
-                  /\ \A i \in 4..6 : p[i] \in (IF giv[i] THEN Off ELSE {0})
-                  /\ Admissible(p, giv)}
+Vals(giv, i) == IF giv[i] THEN (IF i <= 3 THEN Diag ELSE Off) ELSE {0}
+Cells2(giv) == {p \in {<<xx, yy, zz, xy, xz, yz>> : xx \in Vals(giv, 1), yy \in Vals(giv, 2), zz \in Vals(giv, 3),
+                                                     xy \in Vals(giv, 4), xz \in Vals(giv, 5), yz \in Vals(giv, 6)} :
+                  Admissible(p, giv)}
+CellsAll == Cells2(AllGiven)     \* constant: evaluated once
 Cat2 == <<<<1, 1, 1, 0, 0, 0>>, <<2, 3, 1, 1, 0, 0>>, <<3, 2, 2, 1, -1, 0>>, <<2, 2, 3, 0, 1, 1>>>>
 Cells4 == {<<mu, la, phi>> : mu \in MuVals, la \in LaVals, phi \in PhiVals}
 Cat4 == <<<<1, 0, 2>>, <<2, 1, 0>>, <<1, 3, 1>>, <<3, 2, 3>>>>
@@ -59,7 +60,7 @@ Next == Pick \/ Eval
 Spec == Init /\ [][Next]_vars
 
 Cells == IF Kind = "second"
-         THEN (IF scen = "build" THEN Cells2(a) ELSE IF scen = "rotate" THEN Cells2(AllGiven) ELSE Cat2)
+         THEN (IF scen = "build" THEN (IF a = AllGiven THEN CellsAll ELSE Cells2(a)) ELSE IF scen = "rotate" THEN CellsAll ELSE Cat2)
          ELSE (IF scen = "build" THEN {c \in Cells4 : b \/ c[3] = 0} ELSE Cat4)
 Emit == st = 2 =>
   PrintT(ToJson([kind |-> Kind, scen |-> scen, cells |-> Cells, extra |-> b,
